@@ -375,24 +375,22 @@ func WriteZipArchive(st storage.Storer, w io.Writer, tree *object.Tree, commitHa
 			return err
 		}
 
-		// Extract Unix permission bits from git mode and apply default umask.
-		unixMode := int64(entry.Mode) & 0o777
-
 		fh := &zip.FileHeader{
 			Name:     fullName,
 			Method:   zip.Deflate,
 			Modified: modTime,
 		}
+		// The tar umask is tar's alone. Like canonical git (archive-zip.c),
+		// only executables and symlinks carry Unix attributes: an executable
+		// its mode from the tree, a plain file none at all.
 		switch entry.Mode {
 		case filemode.Executable:
-			fh.SetMode(fs.FileMode(ApplyUmask(unixMode, true)))
+			fh.SetMode(fs.FileMode(int64(entry.Mode) & 0o777))
 		case filemode.Symlink:
 			// SetMode takes Go's mode bits, not Unix ones: the link type has
 			// to be given as fs.ModeSymlink. Symlinks always get 0777 per
 			// canonical git.
 			fh.SetMode(fs.ModeSymlink | 0o777)
-		default:
-			fh.SetMode(fs.FileMode(ApplyUmask(unixMode, false)))
 		}
 
 		fw, err := zw.CreateHeader(fh)
